@@ -120,6 +120,7 @@ type Exec struct {
 	inlineCount   map[string]int
 	exemptions    []string
 	knownNames    map[string]bool
+	secondAttempt bool
 	reachBackend  map[string]bool
 	reachMutating map[string]bool
 	maxOps        int
@@ -896,6 +897,15 @@ func (ex *Exec) goStmt(fr *Frame, st *State, x *ssa.Go) {
 	// goroutines are not executed: the spawned function may run at any later
 	// time; its effects on shared state are not modelled (see DESIGN §2.3).
 	st.Tracef("%s: go (not executed)", ex.pos(x.Pos()))
+	if sc := x.Call.StaticCallee(); sc != nil {
+		// the goroutine is not executed, but contracts may constrain WHEN it is started: assert @go:<callee>
+		var args []Val
+		for _, a := range x.Call.Args {
+			args = append(args, ex.val(fr, st, a))
+		}
+		ns, ts := fnParamInfo(sc)
+		ex.checkAsserts(fr, st, "go:"+funcKey(sc), ns, ts, args, x.Pos())
+	}
 	ex.warn("go statement in %s not executed", fr.fn.String())
 	for _, a := range x.Call.Args {
 		if p, ok := ex.val(fr, st, a).(*Ptr); ok && p.Cell != nil {
